@@ -155,7 +155,7 @@ func genConcCase(t *rapid.T) *ConcCase {
 		wk := CWorker{Spin: rapid.IntRange(0, 2000).Draw(t, "spin")}
 		k := rapid.IntRange(2, 8).Draw(t, "nops")
 		for j := 0; j < k; j++ {
-			wk.Ops = append(wk.Ops, COp{Kind: pick2(t, []string{"own", "own", "shared", "invoke", "invoke", "eval", "tree", "reject"}), Prog: rapid.IntRange(0, n-1).Draw(t, "prog"), Var: rapid.IntRange(0, c.NVar).Draw(t, "var")})
+			wk.Ops = append(wk.Ops, COp{Kind: pick2(t, []string{"own", "own", "shared", "invoke", "invoke", "eval", "tree", "reject", "debug"}), Prog: rapid.IntRange(0, n-1).Draw(t, "prog"), Var: rapid.IntRange(0, c.NVar).Draw(t, "var")})
 		}
 		c.Workers = append(c.Workers, wk)
 	}
@@ -241,6 +241,21 @@ func checkConc(c *ConcCase) *Outcome {
 		alone[i] = make([]string, len(variants))
 		alone[i][0] = runAlone(i, 0)
 		compileErr[i] = alone[i][0] == "does-not-compile"
+	}
+	// one-shot debug evaluation (an engine and a record of its own per call): over the host struct,
+	// or - for programs that cannot go that way - a closed program with no environment at all
+	closedSrcs := []string{"1 + 2 * 3", "len([1, 2]) > 1", "max(1 + 1, 3) == 3", "\"a\" + \"b\" == \"ab\""}
+	runDebug := func(prog, variant int) string {
+		var v *val.Val
+		var err error
+		var report string
+		var p *run.Panic
+		if hostOK && !usesHarness[prog] {
+			p = run.Guard(func() { v, report, err = yae.Debug(srcs[prog], hosts[variant]) })
+		} else {
+			p = run.Guard(func() { v, report, err = yae.Debug(closedSrcs[prog%len(closedSrcs)], nil) })
+		}
+		return rejectText(v, err, p) + "\n" + report
 	}
 	rejectAlone := make([]string, len(c.Rejected))
 	runReject := func(i, engine int) string {
@@ -331,6 +346,16 @@ func checkConc(c *ConcCase) *Outcome {
 				if op.Var < 0 || op.Var >= len(variants) {
 					op.Var = 0
 				}
+				if op.Kind == "debug" {
+					if atomic.AddInt64(&inflight, 1) > 1 {
+						atomic.AddInt64(&overlapped, 1)
+					}
+					atomic.AddInt64(&total, 1)
+					got := runDebug(op.Prog, op.Var)
+					atomic.AddInt64(&inflight, -1)
+					results[wi][oi] = opResult{got, ""}
+					continue
+				}
 				if atomic.AddInt64(&inflight, 1) > 1 {
 					atomic.AddInt64(&overlapped, 1)
 				}
@@ -387,7 +412,8 @@ func checkConc(c *ConcCase) *Outcome {
 	}
 	var mismatch []string
 	salted := 0
-	rejects := 0
+	rejects, debugs := 0, 0
+	debugAlone := map[[2]int]string{}
 	for wi, wk := range c.Workers {
 		for oi, op := range wk.Ops {
 			if op.Kind == "reject" {
@@ -409,6 +435,19 @@ func checkConc(c *ConcCase) *Outcome {
 			if op.Var < 0 || op.Var >= len(variants) {
 				op.Var = 0
 			}
+			if op.Kind == "debug" {
+				debugs++
+				k := [2]int{op.Prog, op.Var}
+				want, done := debugAlone[k]
+				if !done {
+					want = runDebug(op.Prog, op.Var)
+					debugAlone[k] = want
+				}
+				if r := results[wi][oi]; r.got != want {
+					mismatch = append(mismatch, fmt.Sprintf("worker %d op %d (one-shot Debug of prog %d variant %d): %q, alone %q", wi, oi, op.Prog, op.Var, r.got, want))
+				}
+				continue
+			}
 			if op.Var > 0 {
 				salted++
 			}
@@ -419,6 +458,7 @@ func checkConc(c *ConcCase) *Outcome {
 	}
 	R.Class("operations-on-text-new-to-the-process", salted)
 	R.Class("compilations-of-rejected-sources", rejects)
+	R.Class("one-shot-debug-evaluations", debugs)
 	if len(mismatch) > 0 {
 		return bad("concurrent outcomes differ from the outcomes of the same operations run alone:\n  %s\n programs: %s", strings.Join(mismatch, "\n  "), strings.Join(srcs, " ;; "))
 	}
@@ -431,7 +471,7 @@ func checkConc(c *ConcCase) *Outcome {
 var c14 = Register(&Prop[ConcCase]{ID: "C14", Name: "concurrent-workloads", Gen: genConcCase, Check: checkConc})
 
 func TestC14(t *testing.T) {
-	R.Rule = "generated workloads under the race detector: 4-32 goroutines, each a drawn sequence of 2-8 operations over 2-6 generated programs (mono / poly calls, built-in and user-registered lazy functions incl. ones that force a thunk twice, dynamic calls, literals, programs that render or hash object literals on their first evaluation): compile + invoke on an engine of its own, compile on a shared engine that has finished its first compilation (an accepted one, one refused by the parser, or one refused by the type checker), invoke a shared callable, one-shot Eval, compile one shared parsed tree (Expr.Parse once, Expr.CompileExpr per goroutine on an engine of its own), compile a source that is refused (a program cut short, with a closer missing, a dangling operator or an unknown name) on an engine of its own - the error text, positions included, must be the one the same source gets alone; drawn busy-spin start offsets; oracle: no race report (the detector halts the run; the workload is the replay file) and the environment's values in 1-5 variants (the drawn values, and copies whose every string carries a salt unique to the workload, so that built-ins working on run-time text — match with the pattern from the environment in at least one program per workload — meet text new to the process while other goroutines are inside them); every operation's outcome equals the outcome of the same operation run alone (beforehand for the drawn values, afterwards for the salted ones); non-trivial = at least half of the workload's operations started while another goroutine was inside yae (atomic in-flight counter)"
+	R.Rule = "generated workloads under the race detector: 4-32 goroutines, each a drawn sequence of 2-8 operations over 2-6 generated programs (mono / poly calls, built-in and user-registered lazy functions incl. ones that force a thunk twice, dynamic calls, literals, programs that render or hash object literals on their first evaluation): compile + invoke on an engine of its own, compile on a shared engine that has finished its first compilation (an accepted one, one refused by the parser, or one refused by the type checker), invoke a shared callable, one-shot Eval, compile one shared parsed tree (Expr.Parse once, Expr.CompileExpr per goroutine on an engine of its own), one-shot Debug (over the host struct, or of a closed program with no environment; value and report must be the ones it gives alone), compile a source that is refused (a program cut short, with a closer missing, a dangling operator or an unknown name) on an engine of its own - the error text, positions included, must be the one the same source gets alone; drawn busy-spin start offsets; oracle: no race report (the detector halts the run; the workload is the replay file) and the environment's values in 1-5 variants (the drawn values, and copies whose every string carries a salt unique to the workload, so that built-ins working on run-time text — match with the pattern from the environment in at least one program per workload — meet text new to the process while other goroutines are inside them); every operation's outcome equals the outcome of the same operation run alone (beforehand for the drawn values, afterwards for the salted ones); non-trivial = at least half of the workload's operations started while another goroutine was inside yae (atomic in-flight counter)"
 	R.Assume = []string{"the Go scheduler owns the interleaving: this samples schedules, it does not enumerate them", "the race detector has no false positives"}
 	reportKnown(t, "C14")
 	runRegress(t, "C14")
